@@ -3,7 +3,8 @@
     storage returned and the entity ID registered for the application -- for all of them.  Wire level: the marshalled
     document and the auto-submit form / redirect query return these values to a parser (Codec.XmlEscape, Codec.HtmlEsc,
     Codec.QueryEscape round trips); IDs and instants are supplied by the runtime and checked by the harness. *)
-From Saml Require Import Base.Bytes Idp.FactTypes Gen.Facts Idp.Callback Core.Attrs Proofs.CallbackProofs
+From Saml Require Import Xml.SchemaTypes Xml.Schema Gen.Schema Xml.SamlSpec.
+From Saml Require Import Base.Bytes Idp.FactTypes Gen.Facts Idp.Callback Idp.Deliver Core.Attrs Proofs.CallbackProofs
   Codec.QueryEscape Codec.XmlEscape Codec.HtmlEsc.
 
 Notation run_cb form_ok form_id lookup_req app_entity userinfo cert_ok sign_ok :=
@@ -60,8 +61,22 @@ Proof. exact query_unescape_escape. Qed.
 Theorem C03_wire_form : forall s, no_nul s = true -> html_attr_unescape (attr_escape s) = s.
 Proof. exact html_attr_roundtrip. Qed.
 
+(** how the response leaves (body / auto-submit form / redirect, as used in C03_fields) is read off the statement
+    sequence of sendBackResponse, for every consumer URL, binding, RelayState and message *)
+Theorem C03_delivery_from_source : forall acs binding relay m,
+  deliver_shape sendBackResponse_seq (is_empty acs) (label_is binding) = Some (kind_of_creply (deliver acs binding relay m)).
+Proof. exact deliver_from_source. Qed.
+
+(** the struct tags of the current source agree with the SAML schemas where the response builders rely on them: the
+    fields filled by makeResponse / makeAssertion are the attributes and elements of that name, and attribute values and
+    audiences are written as one element each even when empty *)
+Theorem C03_schema : forallb (conforms xml_schema) saml_spec = true.
+Proof. exact saml_spec_conforms. Qed.
+
 Print Assumptions C03_fields.
 Print Assumptions C03_attributes.
 Print Assumptions C03_wire_xml.
 Print Assumptions C03_wire_query.
 Print Assumptions C03_wire_form.
+Print Assumptions C03_delivery_from_source.
+Print Assumptions C03_schema.
